@@ -88,6 +88,8 @@ def load_seeded():
         if not os.path.exists(p):
             continue
         meta = json.load(open(os.path.join(d, "meta.json")))
+        if meta.get("superseded"):
+            continue  # no longer breaks the property on the current tree (see meta.json)
         props = meta.get("checked_by") or [meta["property"]]
         MUTANTS.append(dict(id="seeded:" + os.path.basename(d), props=props, patch=p,
                             expect=meta.get("expect_rule", [""]), tier=meta.get("tier", "quick"),
@@ -855,3 +857,6 @@ M("C11.hour_period_truncates_to_day", ["C11"], "emitter/file/src/lib.rs",
         })
         .unwrap(),
         RollBy::Minute""", "C11.R8:counter-monotone")
+
+M("C15.rev_fix_underscore_segment_start", ["C15"], "core/src/path.rs",
+  "c if separators % 2 == 0 && (is_xid_start(c) || c == '_') => {", "c if separators % 2 == 0 && is_xid_start(c) => {", "C15.R3")
